@@ -500,6 +500,29 @@ def v5_hint_fallback(ctx):
                 labs = info["arms"].get(e.dst, [])
                 if labs and "Io" not in labs:
                     check_edge_returns(r, b, f, bb, e.dst, "hint error: %s" % ",".join(labs), lambda c, o: c == "err", "Err")
+    # guard form: `Err(Error::Io(ref ioe)) if ioe.kind() == io::ErrorKind::NotFound`
+    for bb in sorted(b.live_blocks()):
+        info = b.switch_info(bb)
+        if not info or info["kind"] != "bool":
+            continue
+        on = peel_var(info["on"])
+        neg = False
+        if on[0] == "un" and on[1] == "Not":
+            on, neg = peel_var(on[2]), True
+        if on[0] == "call" and on[1].split("::")[-1] in ("eq", "ne") and len(on[2]) == 2:
+            if on[1].split("::")[-1] == "ne":
+                neg = not neg
+            sides = [peel(x) for x in on[2]]
+            kind_side = [x for x in sides if x[0] == "call" and x[1].endswith("io::Error::kind") and from_hint_err(x)]
+            nf_side = [x for x in sides if x[0] == "agg" and x[3] == "NotFound"]
+            if kind_side and nf_side:
+                seen_kind = True
+                for e in b.succ[bb]:
+                    lab = info["arms"].get(e.dst)
+                    if lab == [not neg]:
+                        notfound_edges.add((e.src, e.dst))
+                    elif lab == [neg]:
+                        check_edge_returns(r, b, f, bb, e.dst, "hint error: other io::ErrorKind", lambda c, o: c == "err", "Err")
     if not (seen_kind and seen_var):
         r.unrec(f, "routing of the hint loader's error", where(b, hbb), "switch on error variant=%s, on io kind=%s" % (seen_var, seen_kind))
     dom = bool(notfound_edges) and dbb not in reach(b, [0], blocked_edges=lambda e: (e.src, e.dst) in notfound_edges)
